@@ -2,6 +2,7 @@
 C10 — Time lookups return the first live message at or after the given time.
 -/
 import Klev.Proofs.IndexSearch
+import Klev.Proofs.SearchTie
 import Klev.Proofs.TimeOK
 import Klev.Proofs.ExtRun
 import Klev.Proofs.ExtReads
@@ -186,6 +187,13 @@ theorem cx_not_pubMono : ¬ PubMono 0 cxOps := by
   intro h
   exact absurd (h.2.2.1.2 7 (by decide)) (by decide)
 
+/-- **Regenerated tie (T4).** `index.Time` of the current source (with the standard library's
+`sort.Search` loop as a library model), translated statement by statement on every run, equals
+the model function for every input. -/
+theorem search_tie_time (items : List Item) (ts : Int) :
+    Gen.Search.indexTime items ts = Index.time items ts :=
+  Klev.indexTime_tie items ts
+
 end Klev.C10
 
 #print axioms Klev.C10.getByTime_ok
@@ -209,3 +217,4 @@ end Klev.C10
 #print axioms Klev.C10.cx_not_timesInv
 #print axioms Klev.C10.cx_getByTime
 #print axioms Klev.C10.cx_not_pubMono
+#print axioms Klev.C10.search_tie_time
